@@ -145,7 +145,7 @@ def run_tsan_case(binary, line, timeout=120):
     build directory (removed afterwards) so that the filter's Logger is enabled"""
     logdir, orig = None, line
     if line.split()[-1] == "LOG":
-        logdir = vlib.BUILD / "tsan" / "h" / ("c10-logs-%d-%d" % (os.getpid(), int(time.time() * 1e6) % 10 ** 9))
+        logdir = vlib.BUILD / "tsan" / "logs" / ("c10-logs-%d-%d" % (os.getpid(), int(time.time() * 1e6) % 10 ** 9))
         logdir.mkdir(parents=True, exist_ok=True)
         line = " ".join(line.split()[:-1] + [str(logdir)])
     try:
